@@ -6,7 +6,14 @@
    One case = one line of integers:
      ntypes nE nS nK
      nE x (type stateful)                       emitters (stateful: 0/1)
-     nS x (wild cap ntys ty_1..ty_ntys)         subscriptions (wild: 0 typed, 1 wildcard)
+     nS x (wild cap ntys ty_1..ty_ntys)         subscriptions (wild: 0 typed, 1 wildcard,
+                                                >= 2 a REJECTED Subscribe call: wild = 2 + 2*pos + kind, the call
+                                                passes the listed (valid) types with one invalid entry inserted at
+                                                index pos (0..ntys); kind 0 = a non-pointer value, 1 = an untyped nil.
+                                                It must return an error (label 1 3 s 1; for the nil entry the
+                                                nil-dereference panic raised in the CALLER by the validation loop
+                                                counts as the rejection) and leave no trace on the bus; no receive
+                                                and no Close is ever issued for it)
      nK x (emitter eventid)                     Emit calls; event ids are distinct, >= 0
      nL
      nL x (kind a b v)                          label trace in log order
@@ -84,10 +91,16 @@ Definition decode (l : list Z) : option (cfg * list wl) :=
 Fixpoint znodup (l : list Z) : bool :=
   match l with [] => true | x :: r => negb (existsb (Z.eqb x) r) && znodup r end.
 Definition in_range (n x : Z) : bool := Z.leb 0 x && Z.ltb x n.
+(* the kind of a subscription entry: a typed Subscribe lists at least one type; the invalid entry of a
+   rejected call sits at an index 0..ntys *)
+Definition sub_w_ok (w : Z) (tys : list Z) : bool :=
+  Z.leb 0 w && (if w =? 0 then negb (zlen tys =? 0) else if w =? 1 then true else Z.leb ((w - 2) / 2) (zlen tys)).
+(* the types a Subscribe call gets wired to: none when the call is rejected *)
+Definition vtys (w : Z) (tys : list Z) : list Z := if Z.leb 2 w then [] else tys.
 Definition cfg_wf (c : cfg) : bool :=
   forallb (fun p => in_range (c_ntypes c) (fst p) && in_range 2 (snd p)) (c_emitters c)
   && forallb (fun s => let '(w, cap, tys) := s in
-                in_range 2 w && nonneg cap && forallb (in_range (c_ntypes c)) tys && znodup tys
+                sub_w_ok w tys && nonneg cap && forallb (in_range (c_ntypes c)) tys && znodup tys
                 && (if Z.eqb w 1 then match tys with [] => true | _ => false end else true)) (c_subs c)
   && forallb (fun p => in_range (zlen (c_emitters c)) (fst p) && nonneg (snd p)) (c_emits c)
   && znodup (map snd (c_emits c)).
@@ -96,7 +109,7 @@ Definition cfg_wf (c : cfg) : bool :=
 Definition init_of (c : cfg) : state :=
   init_state (Z.to_nat (c_ntypes c))
     (map (fun s => let '(w, cap, tys) := s in
-                   new_sub (if Z.eqb w 1 then None else Some (map Z.to_nat tys)) (Z.to_nat cap)) (c_subs c))
+                   new_sub (if Z.eqb w 1 then None else Some (map Z.to_nat (vtys w tys))) (Z.to_nat cap)) (c_subs c))
     (map (fun p => new_emitter (Z.to_nat (fst p)) (zbool (snd p))) (c_emitters c))
     (map (fun p => new_emit (Z.to_nat (fst p)) (snd p)) (c_emits c)).
 
@@ -155,7 +168,9 @@ Definition conform_case (l : list Z) : list Z :=
    goroutine is blocked) on the labels seen so far.  A call that has started and
    not returned must be LEGITIMATELY blocked: directly or transitively waiting for
    an Emit that is stalled on a subscription whose consumer is not receiving
-   and whose Close has not started ("blocks when a subscriber is slow").  What
+   and whose Close has not started ("blocks when a subscriber is slow") - a
+   subscription, i.e. one whose Subscribe call has begun and did not return an
+   error: the channel of a rejected Subscribe call is nobody's, nothing may wait on it.  What
    may wait for what is the characterisation behind c15_no_deadlock:
      Emit of type T        a subscription of T (typed with T, or wildcard) may stall it
      Emitter() of type T   only the node lock of T: a stalled Emit/replay on a typed subscription of T
@@ -178,9 +193,16 @@ Definition o_nreq (tr : list label) (s : nat) : nat :=
 Definition o_nread (tr : list label) (s : nat) : nat :=
   length (filter (fun l => match l with LRead s' _ => Nat.eqb s s' | _ => false end) tr).
 
-(* s may be stalling senders: subscribed (at least begun), not being closed, consumer not receiving *)
+Definition lab_is_ret_code (t : thr) (c : Z) (l : label) : bool := match l with LRet t' c' => thr_eqb t t' && (c =? c') | _ => false end.
+(* the Subscribe call of s returned an error: no subscription s exists *)
+Definition o_rejected (tr : list label) (s : nat) : bool := existsb (lab_is_ret_code (TSub s) 1) tr.
+
+(* s may be stalling senders: a subscription that some caller holds or is about to get (its Subscribe has
+   at least begun and did not return an error), not being closed, consumer not receiving.  In particular
+   nothing may ever stall on the channel of a Subscribe call that was rejected. *)
 Definition o_root (tr : list label) (s : nat) : bool :=
-  (o_started tr (TSub s) || o_returned tr (TSub s)) && negb (o_started tr (TClose s)) && Nat.leb (o_nreq tr s) (o_nread tr s).
+  (o_started tr (TSub s) || o_returned tr (TSub s)) && negb (o_started tr (TClose s)) && Nat.leb (o_nreq tr s) (o_nread tr s)
+  && negb (o_rejected tr s).
 
 Definition o_typed_with (o : ocfg) (s ty : nat) : bool :=
   match nth_error (o_sub o) s with Some (Some tys) => existsb (Nat.eqb ty) tys | _ => false end.
@@ -220,7 +242,7 @@ Definition blocked_badly (o : ocfg) (tr : list label) : option thr :=
 
 Definition ocfg_of_cfg (c : cfg) : ocfg :=
   mkOcfg (map (fun p => Z.to_nat (fst p)) (c_emitters c))
-         (map (fun s => let '(w, _, tys) := s in if w =? 1 then None else Some (map Z.to_nat tys)) (c_subs c))
+         (map (fun s => let '(w, _, tys) := s in if w =? 1 then None else Some (map Z.to_nat (vtys w tys))) (c_subs c))
          (map (fun p => Z.to_nat (fst p)) (c_emits c)).
 
 Definition thr_code (t : thr) : Z * Z :=
@@ -239,7 +261,7 @@ Record dcfg := mkDcfg { d_nt : nat; d_em : list (nat * bool); d_sub : list (opti
 Definition dcfg_of_cfg (c : cfg) : dcfg :=
   mkDcfg (Z.to_nat (c_ntypes c))
          (map (fun p => (Z.to_nat (fst p), zbool (snd p))) (c_emitters c))
-         (map (fun s => let '(w, cap, tys) := s in ((if w =? 1 then None else Some (map Z.to_nat tys)), Z.to_nat cap)) (c_subs c))
+         (map (fun s => let '(w, cap, tys) := s in ((if w =? 1 then None else Some (map Z.to_nat (vtys w tys))), Z.to_nat cap)) (c_subs c))
          (map (fun p => (Z.to_nat (fst p), snd p)) (c_emits c)).
 Definition ocfg_of_dcfg (d : dcfg) : ocfg := mkOcfg (map fst (d_em d)) (map fst (d_sub d)) (map fst (d_emit d)).
 
@@ -253,7 +275,6 @@ Fixpoint cut (f : label -> bool) (l : list label) : option (list label) :=
 Definition before_ (pre : list label) (fa fb : label -> bool) : bool :=
   match cut fb pre with Some p1 => existsb fa p1 | None => false end.
 
-Definition lab_is_ret_code (t : thr) (c : Z) (l : label) : bool := match l with LRet t' c' => thr_eqb t t' && (c =? c') | _ => false end.
 Definition lab_is_req (s : nat) (l : label) : bool := match l with LReq s' => Nat.eqb s s' | _ => false end.
 Fixpoint reads_d (pre : list label) (s : nat) : list Z :=
   match pre with
